@@ -331,8 +331,10 @@ func (w *c9world) session(name, role string, np int, oc, second string) string {
 	case "gto":
 		w.coord.TssTimeout = 25 * time.Millisecond
 		w.coord.InitiatePeriod = 4 * time.Millisecond
-	case "gtorun":
+	case "gtorun", "gtorunforeign":
 		w.coord.TssTimeout = 2 * time.Second
+	case "gtoforeign":
+		w.coord.TssTimeout = 100 * time.Millisecond
 	}
 	procs := []*recProc{}
 	tps := []tss.TssProcess{}
@@ -456,6 +458,20 @@ func (w *c9world) session(name, role string, np int, oc, second string) string {
 		cancel()
 	case "gtorun":
 		okFlow = entered()
+	case "gtoforeign", "gtorunforeign":
+		// only the global time-out can end the session, and meanwhile a relayer that is NOT the session's coordinator
+		// keeps announcing failure (one fail message every 20 ms, until Execute has returned): the time-out must still
+		// come TssTimeout after the session began
+		if oc == "gtorunforeign" {
+			okFlow = entered()
+		} else {
+			okFlow = waitUntil(c9wait, subscribed)
+		}
+		for end := time.Now().Add(c9wait); !isReturned() && time.Now().Before(end); {
+			_ = w.stranger.inner.Broadcast(peer.IDSlice{w.ids[0]}, []byte{}, comm.TssFailMsg, sid)
+			time.Sleep(20 * time.Millisecond)
+		}
+		okFlow = okFlow && isReturned() // still pending after 8 s of foreign fail messages: the time-out never came
 	case "failmsg":
 		okFlow = entered()
 		_ = w.ghost.inner.Broadcast(peer.IDSlice{w.ids[0]}, []byte{}, comm.TssFailMsg, sid)
@@ -630,8 +646,8 @@ func init() {
 	gens["C09"] = genC09
 }
 
-var c9outsP = []string{"ok", "fail", "silent", "gto", "cancel", "precancel", "cancelrun", "badstart", "stranger", "failmsg"}
-var c9outsC = []string{"ok", "fail", "gto", "cancel", "precancel", "cancelrun", "readyerr"}
+var c9outsP = []string{"ok", "fail", "silent", "gto", "gtoforeign", "cancel", "precancel", "cancelrun", "badstart", "stranger", "failmsg"}
+var c9outsC = []string{"ok", "fail", "gto", "gtoforeign", "cancel", "precancel", "cancelrun", "readyerr"}
 
 // first-attempt failure > who coordinates the second attempt : how it ends
 var c9retryP = []string{
@@ -644,6 +660,20 @@ var c9retryP = []string{
 var c9retryC = []string{"comm>self:ok", "comm>self:fail", "comm>self:cancel", "comm>self:idle"}
 
 func genC09(g *G) {
+	// the registries as shared objects: lock-exclusion probes and a late send against a release in progress
+	g.Emit("excl", "-")
+	g.out.Flush() // (registries that do not exclude can end the driver with Go's fatal "concurrent map" error anywhere below)
+	g.Emit("latesend", "-")
+	for _, n := range []string{"1", "2", "3", "5"} {
+		g.Emit("twosends", n)
+	}
+	defer func() {
+		// (last: on a tree where the registries are not mutually exclusive this can end the driver with Go's fatal
+		// "concurrent map writes" - every other line has been compared by then)
+		for i := 0; i < g.Count(2, 20); i++ {
+			g.Emit("hammer", itoa(4+4*g.Intn(4)))
+		}
+	}()
 	// retried process objects (real signing processes; FROST needs 10 s per run: thorough tier, started ahead)
 	if g.Thorough() {
 		c10prefetch("rerun", c9rerunRun, "fsigning", "2")
@@ -747,6 +777,8 @@ func genC09(g *G) {
 	}
 	g.Emit("sess", "d:P:2:comm>selfA3:ok,d:P:1:comm>selfA1:fail,d:c:1:ok")
 	g.Emit("sess", "a:p:1:gtorun,a:c:2:ok")
+	g.Emit("sess", "a:p:2:gtorunforeign,a:p:1:ok")
+	g.Emit("sess", "a:P:1:gtoforeign,a:P:1:ok")
 	if g.Thorough() {
 		g.Emit("sess", "a:c:2:gtorun,a:p:1:ok")
 	}
